@@ -322,7 +322,9 @@ func (s *stub) GossipVrx(ctx context.Context, in *pb.VrxMsgGossip, _ ...grpc.Cal
 		dup := &pb.VrxMsgGossip{}
 		roundTrip(req, dup)
 		simrt.GoNamed("net-dup", func() {
-			simrt.SleepFor(s.net.latency(simrt.Me()))
+			if !chance(simrt.Me(), 0.4) { // otherwise the copy travels beside the original and arrives at about the same time
+				simrt.SleepFor(s.net.latency(simrt.Me()))
+			}
 			s.net.deliverX(context.Background(), from, s.to, "GossipVrx", item, gossiperAddrsFor(item, dup.Gossipers), false, true, func(c context.Context) error {
 				_, e := s.to.Goss.Server().GossipVrx(c, dup)
 				return e
@@ -357,7 +359,9 @@ func (s *stub) GossipTrx(ctx context.Context, in *pb.TrxMsgGossip, _ ...grpc.Cal
 		dup := &pb.TrxMsgGossip{}
 		roundTrip(req, dup)
 		simrt.GoNamed("net-dup", func() {
-			simrt.SleepFor(s.net.latency(simrt.Me()))
+			if !chance(simrt.Me(), 0.4) { // otherwise the copy travels beside the original and arrives at about the same time
+				simrt.SleepFor(s.net.latency(simrt.Me()))
+			}
 			s.net.deliverX(context.Background(), from, s.to, "GossipTrx", item, gossiperAddrsFor(item, dup.Gossipers), false, true, func(c context.Context) error {
 				_, e := s.to.Goss.Server().GossipTrx(c, dup)
 				return e
